@@ -46,8 +46,9 @@ ASSUMPTIONS = [
     "integrate constants by construction; GlobalLagrangeGrid(boundary=False, modified_basis=True) has no caller and "
     "raises IndexError on every grid (reported, not generated); for GlobalBSplineGrid(boundary=False, "
     "modified_basis=True) (only in commented-out callers) only the constant clause is asserted",
-    "hierarchical polynomial clauses use the tolerance scale*(1e-10 + 1e-14*cond(collocation matrix)) and are skipped "
-    "(counted as class 'ill-conditioned-skipped', never a violation) when cond > 1e9",
+    "hierarchical polynomial clauses use the tolerance scale*(1e-10 + 1e-14*cond) with cond = product over the dimensions "
+    "of the 2-norm condition numbers of the 1D collocation matrices, and are skipped (counted as class "
+    "'ill-conditioned-skipped', never a violation) when cond > 1e9",
     "high-order rule, attained order: only on uniform grids (>= 3 points, boundary on) is a minimum order demanded "
     "(min(2, max_degree); the degree-2 moment-matched weights are positive there: Simpson for 3 points, trapezoid*(1-O(h^2)) beyond); elsewhere the attained order depends on the "
     "library's non-negativity test and only 'exact up to what it reports' is demanded",
@@ -551,7 +552,7 @@ def run_hierarchical(case):
             return out
         M = np.array([[float(g.basis[d][j](xi)) for j in range(len(x))] for xi in x])
         c = float(np.linalg.cond(M)) if np.all(np.isfinite(M)) else float("inf")
-        cond = max(cond, c)
+        cond = cond * c         # the tensor-product collocation system has the product of the 1D condition numbers
         out.cls("complete-depth=%d" % min(m, 4))
     out.info["max_cond"] = cond if math.isfinite(cond) else 1e300
     if not cond <= 1e9:
@@ -797,10 +798,10 @@ def selftest():
 
 
 SUBS = [
-    Sub("trapezoid", trapezoid_strategy, run_trapezoid, dict(quick=9600, thorough=160000),
+    Sub("trapezoid", trapezoid_strategy, run_trapezoid, dict(quick=9600, thorough=96000),
         budget_s=dict(quick=17, thorough=170)),
-    Sub("highorder", highorder_strategy, run_highorder, dict(quick=6400, thorough=120000),
+    Sub("highorder", highorder_strategy, run_highorder, dict(quick=6400, thorough=64000),
         budget_s=dict(quick=17, thorough=170), fixed_cases=highorder_fixed),
-    Sub("hierarchical", hierarchical_strategy, run_hierarchical, dict(quick=4800, thorough=48000),
+    Sub("hierarchical", hierarchical_strategy, run_hierarchical, dict(quick=4800, thorough=32000),
         budget_s=dict(quick=18, thorough=200)),
 ]
